@@ -507,6 +507,7 @@ func b2u(b bool) uint64 {
 }
 
 func (c *ctx) useField(v, f string) {
+	c.reads[v] = true
 	if c.fields[v] == nil {
 		c.fields[v] = map[string]bool{}
 	}
@@ -907,8 +908,18 @@ func binders(ps []param) string {
 // through an index, address taken) and tells whether it is handed to a call as a bare argument.
 func writes(fn ast.Node, name string) (n int, escapes bool) {
 	is := func(e ast.Expr) bool {
-		if ix, ok := e.(*ast.IndexExpr); ok {
-			e = ix.X
+		for { // s[i] = …, p.f = …, *p = … change s resp. what p points to
+			if ix, ok := e.(*ast.IndexExpr); ok {
+				e = ix.X
+			} else if sel, ok := e.(*ast.SelectorExpr); ok {
+				e = sel.X
+			} else if st, ok := e.(*ast.StarExpr); ok {
+				e = st.X
+			} else if pe, ok := e.(*ast.ParenExpr); ok {
+				e = pe.X
+			} else {
+				break
+			}
 		}
 		id, ok := e.(*ast.Ident)
 		return ok && id.Name == name
@@ -1079,8 +1090,6 @@ func (c *ctx) translate() (body string, sig []param, result string) {
 					c.refuse(nil, "two slice parameters are modified")
 				}
 				u.mut = p.name
-			} else if acc[p.name] && (res != "" || p.typ == "u32s") && false {
-				c.refuse(nil, "parameter %s is assigned", p.name)
 			}
 		}
 		out := func(v string) string {
@@ -1147,9 +1156,6 @@ func (c *ctx) translate() (body string, sig []param, result string) {
 				c.refuse(s, "%s is written by a statement outside the fragment (loop, switch, multiple assignment, address taken)", x)
 			}
 			lines += c.stmts([]ast.Stmt{s}, func() string { return "" }, nil)
-		}
-		if w, _ := writes(fd.Body, x); false && w == 0 {
-			c.refuse(nil, "no write")
 		}
 		if c.vars[x] == "" {
 			c.refuse(nil, "variable %s not found", x)
